@@ -128,9 +128,10 @@ type KeyID struct {
 
 // Extension is an arbitrary extension; Value is the DER that goes inside the extnValue OCTET STRING.
 type Extension struct {
-	OID      string
-	Critical bool
-	Value    []byte
+	OID           string
+	Critical      bool
+	Value         []byte
+	ExplicitFalse bool // with Critical false: encode "critical FALSE" explicitly (BER; DER omits the DEFAULT)
 }
 
 // CertSpec lists every attribute of a certificate. Zero values mean "what the
@@ -446,6 +447,10 @@ func buildCert(spec CertSpec, issuer *Entity, prof profile) (*Entity, error) {
 		ext(OIDExtEKU, ekuCrit, Seq(o...))
 	}
 	for _, e := range spec.ExtraExtensions {
+		if !e.Critical && e.ExplicitFalse {
+			exts = append(exts, Seq(OID(e.OID), Bool(false), OctetString(e.Value)))
+			continue
+		}
 		ext(e.OID, e.Critical, e.Value)
 	}
 
